@@ -172,6 +172,7 @@ def _run(sc):
     for flag, tag in TAGGED:
         script.append(["out", "<info>OUT-%s</info>" % tag, flag])
         script.append(["err", "<comment>ERR-%s</comment>" % tag, flag])
+    script.append(["section", "<info>SEC-one</info>", "<info>SEC-two</info>"])
     script.append(["ask", sc["question_default"]])
     script.append(["readline", "fallback-line"])
     if sc["raises"]:
@@ -321,6 +322,8 @@ def _run(sc):
             res.violate("verbosity", "stdout_lines", "line of level %r %s at verbosity %r (tokens %r)" % (flag, "missing" if should else "present", level, tokens))
         if ("ERR-%s\n" % tag in se) != should:
             res.violate("verbosity", "stderr_lines", "line of level %r %s at verbosity %r (tokens %r)" % (flag, "missing" if should else "present", level, tokens))
+    if "SEC-two\n" not in so:
+        res.violate("handler", "section_output", "the section written by the handler is missing: %r" % so[-120:])
     # decoration
     if not (has("ansi") and has("no_ansi")):
         for name, data, tty in (("stdout", o, sc["tty_out"]), ("stderr", e, sc["tty_err"])):
